@@ -5,6 +5,7 @@ CONSTANTS DocIds = {"d1"}
  PoolIds = {"n1"}
  OtherIds = {"j1"}
  Names = {"a","b"}
+ IdNames = FALSE
 INVARIANT InvWF
 INVARIANT InvUniqueSib
 INVARIANT InvNamesOK
